@@ -349,6 +349,9 @@ def key_term(k):
         return STR_KEY(z3.StringVal(k))
     if isinstance(k, VStr):
         return STR_KEY(k.t)
+    if isinstance(k, VOpt) and isinstance(k.val, VStr):
+        # a string or None as a key (None is a key of its own; nothing is assumed about how the keys relate)
+        return z3.If(k.isnone, z3.Const("key_of_None", KeyS), STR_KEY(k.val.t))
     raise Unsupported("dict key %r" % (k,))
 
 
